@@ -1077,3 +1077,320 @@ Proof.
   destruct (cri_scan_prefix (c :: rest) 0) as [n Hn]. exists n. split; [exact Hn|].
   destruct n; [|lia]. rewrite Hn in Hne. cbn [firstn] in Hne. congruence.
 Qed.
+
+(* ---------- extra flavour: the handler succeeds on well-formed manifests; containerd's prefix is maximal ---------- *)
+Lemma extra_urls_succeeds : forall children ds j acc,
+  forallb digest_valid ds = true -> exists l, extra_urls children j ds acc = Some l.
+Proof.
+  intros children. induction ds as [|d t IH]; intros j acc H; cbn [extra_urls].
+  - exists acc. reflexivity.
+  - cbn [forallb] in H. apply andb_true_iff in H. destruct H as [H1 H2]. rewrite H1. apply IH. exact H2.
+Qed.
+
+Lemma extra_handler_succeeds : forall children ref pf md c rest,
+  c_layer c = true -> digest_valid (c_digest c) = true ->
+  Forall (fun x => c_layer x = true -> digest_valid (c_digest x) = true) rest ->
+  exists l, extra_ann children ref pf md (c :: rest) = Some l.
+Proof.
+  intros children ref pf md c rest Hc Hd HF.
+  cbn [extra_ann]. unfold extra_over. rewrite extra_l2_eq. cbn [lget key_eqb].
+  apply extra_urls_succeeds.
+  assert (HF' : Forall (fun x => c_layer x = true -> digest_valid (c_digest x) = true) (c :: rest)).
+  { constructor; [intro; exact Hd|exact HF]. }
+  pose proof (cri_scan_nonempty c rest Hc Hd) as Hne.
+  rewrite (cri_layers_split _ HF' Hne).
+  destruct (cri_scan_prefix (c :: rest) 0) as [n Hn]. rewrite Hn.
+  apply forallb_forall. intros d Hin.
+  assert (Hd' : In d (map c_digest (filter c_layer (c :: rest)))).
+  { rewrite <- (firstn_skipn n (map c_digest (filter c_layer (c :: rest)))). apply in_or_app. left. exact Hin. }
+  apply in_map_iff in Hd'. destruct Hd' as [x [Hx1 Hx2]]. apply filter_In in Hx2. destruct Hx2 as [Hx2 Hx3].
+  subst d. rewrite Forall_forall in HF'. apply HF'; assumption.
+Qed.
+
+(* length of the string containerd's getLayers has accumulated after appending the digests ds to a string of length used *)
+Definition cri_len (used : nat) (ds : list str) : nat :=
+  fold_left (fun u d => u + ((if u =? 0 then 0 else 1) + length d)) ds used.
+
+Lemma cri_scan_maximal : forall cs used,
+  let ls := map c_digest (filter c_layer cs) in
+  cri_scan used cs = ls \/
+  exists n d, cri_scan used cs = firstn n ls /\ nth_error ls n = Some d /\
+              max_label < key_len KCriLayers + cri_len used (firstn n ls ++ [d]).
+Proof.
+  induction cs as [|c t IH]; intro used; cbn [cri_scan filter].
+  - left. reflexivity.
+  - destruct (c_layer c); [|apply IH].
+    cbn [map].
+    destruct (key_len KCriLayers + (used + ((if used =? 0 then 0 else 1) + length (c_digest c))) <=? max_label) eqn:E.
+    + destruct (IH (used + ((if used =? 0 then 0 else 1) + length (c_digest c)))) as [H|[n [d [H1 [H2 H3]]]]].
+      * left. f_equal. exact H.
+      * right. exists (S n), d. cbn [firstn nth_error]. split; [f_equal; exact H1|]. split; [exact H2|].
+        cbn [app]. unfold cri_len in *. cbn [fold_left]. exact H3.
+    + apply Nat.leb_gt in E. right. exists 0, (c_digest c). cbn [firstn nth_error app].
+      split; [reflexivity|]. split; [reflexivity|]. unfold cri_len. cbn [fold_left]. lia.
+Qed.
+
+Lemma cri_len_pos : forall ds used, 0 < used -> cri_len used ds = used + total_len ds.
+Proof.
+  induction ds as [|d t IH]; intros used Hu; unfold cri_len, total_len in *; cbn [fold_left fold_right]; [lia|].
+  assert (E : used =? 0 = false) by (apply Nat.eqb_neq; lia). rewrite E.
+  rewrite IH by lia. lia.
+Qed.
+
+Lemma join_length_eq : forall (d : str) t, length (join_comma (d :: t)) = length d + total_len t.
+Proof.
+  intros d t. revert d. induction t as [|y t IH]; intro d.
+  - cbn. unfold total_len. cbn. lia.
+  - change (join_comma (d :: y :: t)) with (d ++ comma :: join_comma (y :: t)).
+    rewrite app_length. cbn [length]. rewrite IH. unfold total_len. cbn [fold_right]. lia.
+Qed.
+
+(* for non-empty digests that accumulated length is the length of the comma-joined label value *)
+Lemma cri_len_join : forall ds, Forall (fun d : str => d <> []) ds -> cri_len 0 ds = length (join_comma ds).
+Proof.
+  intros ds H. destruct ds as [|d t]; [reflexivity|]. inversion H; subst.
+  unfold cri_len. cbn [fold_left Nat.eqb Nat.add]. fold (cri_len (length d) t).
+  rewrite cri_len_pos by (destruct d; [congruence|cbn; lia]). rewrite join_length_eq. reflexivity.
+Qed.
+
+Lemma extra_layers_prefix_maximal : forall c rest,
+  c_layer c = true -> digest_valid (c_digest c) = true ->
+  Forall (fun x => c_layer x = true -> digest_valid (c_digest x) = true) rest ->
+  let ls := map c_digest (filter c_layer (c :: rest)) in
+  split_comma (cri_layers_value (c :: rest)) = ls \/
+  exists n d, split_comma (cri_layers_value (c :: rest)) = firstn n ls /\ nth_error ls n = Some d /\
+              max_label < key_len KCriLayers + length (join_comma (firstn n ls ++ [d])).
+Proof.
+  intros c rest Hc Hd HF ls.
+  assert (HF' : Forall (fun x => c_layer x = true -> digest_valid (c_digest x) = true) (c :: rest)).
+  { constructor; [intro; exact Hd|exact HF]. }
+  pose proof (cri_scan_nonempty c rest Hc Hd) as Hne.
+  rewrite (cri_layers_split _ HF' Hne).
+  destruct (cri_scan_maximal (c :: rest) 0) as [H|[n [d [H1 [H2 H3]]]]]; [left; exact H|].
+  right. exists n, d. split; [exact H1|]. split; [exact H2|].
+  rewrite <- cri_len_join; [exact H3|].
+  assert (Hall : forall x, In x ls -> x <> []).
+  { intros x Hx. unfold ls in Hx. apply in_map_iff in Hx. destruct Hx as [y [Hy1 Hy2]].
+    apply filter_In in Hy2. destruct Hy2 as [Hy2 Hy3]. subst x.
+    rewrite Forall_forall in HF'. destruct (digest_valid_props _ (HF' y Hy2 Hy3)) as [_ [Hn _]]. exact Hn. }
+  apply Forall_forall. intros x Hx. apply Hall. apply in_app_or in Hx. destruct Hx as [Hx|[Hx|[]]].
+  - fold ls in Hx. rewrite <- (firstn_skipn n ls). apply in_or_app. left. exact Hx.
+  - subst x. apply nth_error_In with n. exact H2.
+Qed.
+
+(* ---------- annotations the manifest itself carries (present before the handlers run) ---------- *)
+Lemma lget_lset_all : forall w a0 k,
+  lget (lset_all a0 w) k = match lget (rev w) k with Some v => Some v | None => lget a0 k end.
+Proof.
+  induction w as [|[k0 v0] w IH]; intros a0 k; [reflexivity|].
+  unfold lset_all in *. cbn [fold_left fst snd]. rewrite IH.
+  cbn [rev]. rewrite lget_app. destruct (lget (rev w) k) as [v|]; [reflexivity|].
+  cbn [lget]. destruct (key_eqb k0 k) eqn:E.
+  - apply key_eqb_eq in E. subst k0. apply lget_lset_same.
+  - apply lget_lset_other. exact E.
+Qed.
+
+Lemma urlmap_rev : forall t, rev (urlmap t) = urlmap (rev t).
+Proof. intro t. unfold urlmap. symmetry. apply map_rev. Qed.
+
+Lemma default_ann_rev : forall ref pf c rest,
+  rev (default_ann ref pf (c :: rest)) =
+  [(KUrls, urls_value KUrls (c_urls c)); (KPrefetch, show_Z pf);
+   (KLayers, join_comma (map (fun jc => c_digest (snd jc)) (taken_of (c :: rest))))]
+  ++ urlmap (rev (taken_of (c :: rest))) ++ [(KDigest, c_digest c); (KRef, ref)].
+Proof.
+  intros. rewrite default_ann_eq. rewrite !rev_app_distr. rewrite urlmap_rev. cbn [rev app]. reflexivity.
+Qed.
+
+(* whatever the manifest supplied, the keys the default handler writes hold the handler's values afterwards *)
+Lemma lget_over_fixed : forall a0 ref pf c rest,
+  let l := default_ann_over a0 ref pf (c :: rest) in
+  lget l KRef = Some ref /\ lget l KDigest = Some (c_digest c)
+  /\ lget l KLayers = Some (join_comma (map (fun jc => c_digest (snd jc)) (taken_of (c :: rest))))
+  /\ lget l KPrefetch = Some (show_Z pf) /\ lget l KUrls = Some (urls_value KUrls (c_urls c)).
+Proof.
+  intros a0 ref pf c rest l. unfold l, default_ann_over.
+  repeat split; rewrite lget_lset_all, default_ann_rev; cbn [app lget key_eqb]; try reflexivity;
+    rewrite lget_app, lget_urlmap_none by reflexivity; reflexivity.
+Qed.
+
+Lemma lget_over_urlsidx : forall a0 ref pf c rest p, In p (taken_of (c :: rest)) ->
+  lget (default_ann_over a0 ref pf (c :: rest)) (KUrlsIdx (fst p))
+  = Some (urls_value (KUrlsIdx (fst p)) (c_urls (snd p))).
+Proof.
+  intros a0 ref pf c rest p Hin. unfold default_ann_over. rewrite lget_lset_all, default_ann_rev.
+  cbn [app lget key_eqb]. rewrite lget_app.
+  rewrite (lget_urlmap_in (rev (taken_of (c :: rest))) p); [reflexivity| |apply in_rev in Hin; exact Hin].
+  rewrite map_rev. apply NoDup_rev. unfold taken_of. apply scan_idx_nodup.
+Qed.
+
+(* the other keys stay as the manifest supplied them *)
+Lemma lget_over_other : forall a0 ref pf c rest k,
+  (forall v, ~ In (k, v) (default_ann ref pf (c :: rest))) ->
+  lget (default_ann_over a0 ref pf (c :: rest)) k = lget a0 k.
+Proof.
+  intros a0 ref pf c rest k H. unfold default_ann_over. rewrite lget_lset_all.
+  destruct (lget (rev (default_ann ref pf (c :: rest))) k) as [v|] eqn:E; [|reflexivity].
+  apply lget_In in E. apply in_rev in E. exfalso. exact (H v E).
+Qed.
+
+(* the round trip of the default reader from any map holding the handler's values under the keys it reads *)
+Lemma roundtrip_reader : forall (parse_ref : str -> option str) ref R c rest l,
+  parse_ref ref = Some R ->
+  c_layer c = true -> digest_valid (c_digest c) = true ->
+  Forall (fun x => c_layer x = true) rest ->
+  Forall (fun x => digest_valid (c_digest x) = true) rest ->
+  lget l KRef = Some ref -> lget l KDigest = Some (c_digest c) ->
+  lget l KLayers = Some (join_comma (map (fun jc => c_digest (snd jc)) (taken_of (c :: rest)))) ->
+  lget l KUrls = Some (urls_value KUrls (c_urls c)) ->
+  (forall p, In p (taken_of (c :: rest)) ->
+     lget l (KUrlsIdx (fst p)) = Some (urls_value (KUrlsIdx (fst p)) (c_urls (snd p)))) ->
+  read_default parse_ref l
+  = ROk R (c_digest c) (wire KUrls (c_urls c))
+        (map (fun jc => (c_digest (snd jc), wire (KUrlsIdx (fst jc)) (c_urls (snd jc))))
+             (filter (fun jc => negb (str_eqb (c_digest (snd jc)) (c_digest c))) (taken_of (c :: rest)))).
+Proof.
+  intros parse_ref ref R c rest l Href Hc Hdc Hl Hd L1 L2 L3 L4 L5.
+  unfold read_default, read_with.
+  rewrite L1, Href, L2, Hdc, L3.
+  assert (HF : Forall (fun x => c_layer x = true) (c :: rest)) by (constructor; assumption).
+  destruct (scan_all_layers (c :: rest) (budget KLayers) 0 HF) as [n [Hsnd Hfst]].
+  fold (taken_of (c :: rest)) in Hsnd, Hfst.
+  assert (Hvalid : Forall (fun p => digest_valid (c_digest (snd p)) = true) (taken_of (c :: rest))).
+  { assert (Hall : Forall (fun x => digest_valid (c_digest x) = true) (map snd (taken_of (c :: rest)))).
+    { rewrite Hsnd. apply Forall_forall. intros x Hx.
+      assert (HA : Forall (fun x => digest_valid (c_digest x) = true) (c :: rest)) by (constructor; assumption).
+      rewrite Forall_forall in HA. apply HA. rewrite <- (firstn_skipn n (c :: rest)).
+      apply in_or_app. left. exact Hx. }
+    rewrite Forall_forall in *. intros p Hp. apply Hall. apply in_map. exact Hp. }
+  assert (Hne : taken_of (c :: rest) <> []).
+  { unfold taken_of. cbn [scan_layers]. rewrite Hc.
+    destruct (digest_valid_props _ Hdc) as [_ [_ Hlen]]. rewrite (budget_layers_fits _ Hlen). discriminate. }
+  rewrite split_join.
+  - rewrite (read_neigh_ok _ _ (taken_of (c :: rest)) 0).
+    + unfold urls_of. rewrite L4. reflexivity.
+    + exact L5.
+    + rewrite Hfst. f_equal. rewrite <- (map_length fst). rewrite Hfst. rewrite seq_length. reflexivity.
+    + exact Hvalid.
+  - rewrite Forall_forall in *. intros d Hd'. apply in_map_iff in Hd'. destruct Hd' as [p [Hp1 Hp2]]. subst d.
+    destruct (digest_valid_props _ (Hvalid p Hp2)) as [Hnc _]. exact Hnc.
+  - destruct (taken_of (c :: rest)); [congruence|discriminate].
+Qed.
+
+(* default flavour: FromDefaultLabels and the prefetch size are immune to manifest-supplied annotations *)
+Lemma preexisting_default_immune : forall (parse_ref : str -> option str) a0 ref R pf c rest dflt,
+  parse_ref ref = Some R ->
+  c_layer c = true -> digest_valid (c_digest c) = true ->
+  Forall (fun x => c_layer x = true) rest ->
+  Forall (fun x => digest_valid (c_digest x) = true) rest ->
+  in_int64 pf ->
+  read_default parse_ref (default_ann_over a0 ref pf (c :: rest))
+  = read_default parse_ref (default_ann ref pf (c :: rest))
+  /\ prefetch_of (default_ann_over a0 ref pf (c :: rest)) dflt = pf
+  /\ (forall k, (forall v, ~ In (k, v) (default_ann ref pf (c :: rest))) ->
+        lget (default_ann_over a0 ref pf (c :: rest)) k = lget a0 k).
+Proof.
+  intros parse_ref a0 ref R pf c rest dflt Href Hc Hdc Hl Hd Hpf.
+  destruct (lget_over_fixed a0 ref pf c rest) as [L1 [L2 [L3 [L4 L5]]]].
+  split; [|split].
+  - rewrite (roundtrip_default parse_ref ref R pf c rest) by assumption.
+    apply (roundtrip_reader parse_ref ref R c rest); try assumption.
+    intros p Hp. apply lget_over_urlsidx. exact Hp.
+  - unfold prefetch_of. rewrite L4. rewrite parse_show_Z by exact Hpf. reflexivity.
+  - intros k Hk. apply lget_over_other. exact Hk.
+Qed.
+
+(* ... but the service chain is not: manifest-supplied cri.* annotations survive and the CRI reader is asked first *)
+Lemma preexisting_cri_wins_refuted :
+  exists a0 c rest ref pf,
+    c_layer c = true /\ Forall (fun x => c_layer x = true /\ digest_valid (c_digest x) = true) (c :: rest) /\
+    match read_default (fun s => Some s) (default_ann_over a0 ref pf (c :: rest)),
+          read_service (fun s => Some s) (default_ann_over a0 ref pf (c :: rest)) with
+    | ROk r1 d1 _ _, ROk r2 d2 _ _ => r1 = ref /\ d1 = c_digest c /\ r2 <> ref /\ d2 <> c_digest c
+    | _, _ => False
+    end.
+Proof.
+  exists [(KCriRef, [101; 118; 105; 108]%N); (KCriDigest, sha256_pfx ++ repeat 102%N 64)].
+  exists (nth 0 shift_children dummy_child), [nth 2 shift_children dummy_child], [104; 47; 114]%N, 0%Z.
+  split; [reflexivity|]. split; [repeat constructor|].
+  vm_compute. split; [reflexivity|]. split; [reflexivity|]. split; discriminate.
+Qed.
+
+(* extra flavour: containerd's wrapper overwrites the four cri.* keys, so reference and digest are immune ... *)
+Lemma cri_ann_over_lget : forall a0 ref md c rest,
+  let l0 := cri_ann_over a0 ref md (c :: rest) in
+  lget l0 KCriRef = Some ref /\ lget l0 KCriDigest = Some (c_digest c)
+  /\ lget l0 KCriLayers = Some (cri_layers_value (c :: rest)) /\ lget l0 KCriManifest = Some md
+  /\ (forall k, key_eqb KCriRef k = false -> key_eqb KCriDigest k = false -> key_eqb KCriLayers k = false ->
+                key_eqb KCriManifest k = false -> lget l0 k = lget a0 k).
+Proof.
+  intros a0 ref md c rest l0. unfold l0, cri_ann_over.
+  repeat split; try (rewrite lget_lset_all; reflexivity).
+  intros k H1 H2 H3 H4. rewrite lget_lset_all. cbn [cri_ann rev app lget]. rewrite H1, H2, H3, H4. reflexivity.
+Qed.
+
+Lemma extra_over_keeps_cri : forall l0 children pf c l k,
+  extra_over l0 children pf c = Some l ->
+  key_eqb KUrls k = false -> key_eqb KPrefetch k = false -> (forall i, key_eqb (KUrlsIdx i) k = false) ->
+  lget l k = lget l0 k.
+Proof.
+  intros l0 children pf c l k H Hu Hp Hi. unfold extra_over in H.
+  set (l1 := lset_absent l0 KUrls (urls_value KUrls (c_urls c))) in *.
+  set (l2 := lset_absent l1 KPrefetch (show_Z pf)) in *.
+  assert (E : lget l2 k = lget l0 k).
+  { unfold l2, l1, lset_absent.
+    destruct (lget l0 KUrls); destruct (lget _ KPrefetch); try reflexivity;
+      rewrite ?lget_lset_other by assumption; reflexivity. }
+  destruct (lget l2 KCriLayers) as [nl|].
+  - rewrite (extra_urls_keeps _ _ _ _ _ k H Hi). exact E.
+  - inversion H; subst. exact E.
+Qed.
+
+Lemma extra_urls_checked : forall children ds j acc l,
+  extra_urls children j ds acc = Some l -> forallb digest_valid ds = true.
+Proof.
+  intros children. induction ds as [|d t IH]; intros j acc l H; [reflexivity|].
+  cbn [extra_urls] in H. cbn [forallb]. destruct (digest_valid d); [|discriminate]. cbn [andb]. exact (IH _ _ _ H).
+Qed.
+
+Lemma preexisting_extra_source_immune : forall (parse_ref : str -> option str) a0 children ref R pf md c rest l,
+  extra_ann_over a0 children ref pf md (c :: rest) = Some l ->
+  parse_ref ref = Some R -> digest_valid (c_digest c) = true ->
+  exists u n, read_cri parse_ref l = ROk R (c_digest c) u n
+              /\ n = neigh_spec l (c_digest c) 0 (split_comma (cri_layers_value (c :: rest))).
+Proof.
+  intros parse_ref a0 children ref R pf md c rest l H Href Hdc.
+  cbn [extra_ann_over] in H.
+  destruct (cri_ann_over_lget a0 ref md c rest) as [C1 [C2 [C3 [C4 _]]]].
+  assert (K : forall k, key_eqb KUrls k = false -> key_eqb KPrefetch k = false ->
+                        (forall i, key_eqb (KUrlsIdx i) k = false) ->
+                        lget l k = lget (cri_ann_over a0 ref md (c :: rest)) k).
+  { intros k. apply (extra_over_keeps_cri _ _ _ _ _ k H). }
+  assert (Hvalid : forallb digest_valid (split_comma (cri_layers_value (c :: rest))) = true).
+  { unfold extra_over in H.
+    set (l1 := lset_absent (cri_ann_over a0 ref md (c :: rest)) KUrls (urls_value KUrls (c_urls c))) in *.
+    set (l2 := lset_absent l1 KPrefetch (show_Z pf)) in *.
+    assert (E : lget l2 KCriLayers = Some (cri_layers_value (c :: rest))).
+    { rewrite <- C3. unfold l2, l1, lset_absent.
+      destruct (lget (cri_ann_over a0 ref md (c :: rest)) KUrls); destruct (lget _ KPrefetch); try reflexivity;
+        rewrite ?lget_lset_other by reflexivity; reflexivity. }
+    rewrite E in H. exact (extra_urls_checked _ _ _ _ _ H). }
+  eexists. eexists. split; [|reflexivity].
+  unfold read_cri, read_with.
+  rewrite (K KCriRef) by reflexivity. rewrite C1, Href.
+  rewrite (K KCriDigest) by reflexivity. rewrite C2, Hdc.
+  rewrite (K KCriLayers) by reflexivity. rewrite C3.
+  rewrite (read_neigh_valid _ _ _ _ Hvalid). reflexivity.
+Qed.
+
+(* ... while URLs and prefetch size are not: a manifest-supplied prefetch annotation wins over the pull-time size *)
+Lemma preexisting_extra_kept_refuted :
+  exists a0 children ref pf md l,
+    extra_ann_over a0 children ref pf md children = Some l /\ in_int64 pf /\
+    prefetch_of l 0%Z <> pf /\ lget l KUrls = lget a0 KUrls /\ lget a0 KUrls <> None.
+Proof.
+  exists [(KPrefetch, [49; 55]%N); (KUrls, [120]%N)], [nth 0 shift_children dummy_child], [104; 47; 114]%N, 5%Z,
+         (sha256_pfx ++ repeat 100%N 64).
+  eexists. split; [vm_compute; reflexivity|]. split; [unfold in_int64, int64_min, int64_max; lia|].
+  split; [vm_compute; discriminate|]. split; [vm_compute; reflexivity|vm_compute; discriminate].
+Qed.
